@@ -17,7 +17,8 @@ from vlib.sim import Sim
 from vlib.util import diff_path
 
 PROPERTY = 'C19'
-RULE = ('histories over 6 IPv4 prefixes (incl. /0 and /32), 3 attribute sets, 3 flowspec rules, 3 VPNv4 routes: peer '
+RULE = ('histories over 7 IPv4 prefixes (incl. /0, /32 and two whose length is not a multiple of 8, also sent with the bits beyond the '
+        'length set), 3 attribute sets, 3 flowspec rules, 3 VPNv4 routes: peer '
         'announce/withdraw/re-announce (same, changed)/mixed, flowspec and VPNv4 reach/unreach, operator sends of the same '
         'shapes, one peer UPDATE carrying IPv4 withdrawals together with a flowspec / VPNv4 MP attribute, session drop (peer '
         'close, peer NOTIFICATION, header error, operator stop/start) and re-establishment, MP_REACH and MP_UNREACH of one '
@@ -28,7 +29,7 @@ ASSUMPTIONS = ['rib=True; counters and tables are those of the current connectio
                'within one UPDATE withdrawals are applied before announcements']
 EXHAUSTIVE = {'quick': False, 'thorough': False}
 PEER = '10.0.0.2'
-PREFIXES = ['0.0.0.0/0', '10.0.0.0/8', '10.1.0.0/16', '10.1.1.0/24', '10.1.1.1/32', '192.168.0.0/23']
+PREFIXES = ['0.0.0.0/0', '10.0.0.0/8', '10.1.0.0/16', '10.1.1.0/24', '10.1.1.1/32', '192.168.0.0/23', '172.16.0.0/12']
 ATTRS = [
     {'origin': 0, 'path': [65002], 'nh': '10.0.0.2', 'med': None},
     {'origin': 2, 'path': [65002, 65003], 'nh': '10.0.0.2', 'med': 50},
@@ -160,8 +161,10 @@ class Run(object):
                     changed[act].add('ipv4')
                 table[p] = new
             if side == 'peer':
-                msg = rc.update(withdrawn=b''.join(rc.prefix4(p) for p in wd), attrs=enc_attrs(a) if a else b'',
-                                nlri=b''.join(rc.prefix4(p) for p in ann))
+                # 'dirty': the bits beyond the prefix length are set on the wire (RFC 4271: irrelevant) - same routes
+                tb = 0xFF if (len(op) > 1 and op[-2] == 'dirty') else 0
+                msg = rc.update(withdrawn=b''.join(rc.prefix4(p, trailing=tb) for p in wd), attrs=enc_attrs(a) if a else b'',
+                                nlri=b''.join(rc.prefix4(p, trailing=tb) for p in ann))
                 r.peer_send(self.c, msg)
             else:
                 req = {}
@@ -404,6 +407,8 @@ idxs = st.lists(st.integers(0, len(PREFIXES) - 1), min_size=1, max_size=3, uniqu
 op_strategy = st.one_of(
     st.tuples(st.just('ann'), idxs, st.integers(0, 4), side).map(list),
     st.tuples(st.just('wd'), idxs, side).map(list),
+    st.tuples(st.just('wd'), idxs).map(lambda t: ['wd', t[1], 'dirty', 'peer']),
+    st.tuples(st.just('ann'), idxs, st.integers(0, 4)).map(lambda t: ['ann', t[1], t[2], 'dirty', 'peer']),
     # the same prefix listed twice in one UPDATE's withdrawn routes / NLRI
     st.tuples(st.just('wd'), st.integers(0, len(PREFIXES) - 1), side).map(lambda t: ['wd', [t[1], t[1]], t[2]]),
     st.tuples(st.just('ann'), st.integers(0, len(PREFIXES) - 1), st.integers(0, 4), side).map(lambda t: ['ann', [t[1], t[1]], t[2], t[3]]),
@@ -435,7 +440,8 @@ def shards(tier):
 def run_shard(spec, seed, col, tier):
     if spec['kind'] == 'exh':
         alpha = [['ann', [1], 0, 'peer'], ['ann', [1], 1, 'peer'], ['ann', [1], 3, 'peer'], ['ann', [1], 4, 'rest'], ['ann', [1], 3, 'rest'], ['ann', [2], 0, 'peer'], ['ann', [1, 2], 1, 'peer'],
-                 ['wd', [1], 'peer'], ['wd', [2], 'peer'], ['wd', [1, 1], 'peer'], ['mixed', [1], 0, [2], 'peer'], ['ann', [1], 0, 'rest'], ['wd', [1], 'rest'],
+                 ['wd', [1], 'peer'], ['wd', [2], 'peer'], ['wd', [1, 1], 'peer'], ['wd', [5], 'dirty', 'peer'], ['ann', [5], 0, 'peer'],
+                 ['ann', [5], 0, 'dirty', 'peer'], ['mixed', [1], 0, [2], 'peer'], ['ann', [1], 0, 'rest'], ['wd', [1], 'rest'],
                  ['drop'], ['drop', 'notif'], ['vpn-ann2', 0, 16, 1, 17, 'peer'], ['vpn-ann', 0, 16, 'peer'], ['vpn-ann', 0, 17, 'peer'], ['vpn-wd', 0, 'peer'],
                  ['fs-ann2', 0, 1, 'peer'], ['fs-wd', 0, 'peer'], ['xfam', [1], 'fs-wd', 0, 16], ['xfam', [2], 'vpn-ann', 0, 17],
                  ['vpn-ann', 1, 16, 'rest'], ['mp-both', 'vpn', 0, 1, 16, 'rest'], ['fs-ann', 1, 'rest'], ['mp-both', 'fs', 0, 1, 16, 'rest'],
